@@ -258,6 +258,7 @@ let s_hist judge g obs = Hist.run_history g obs judge
 let no_judge _ _ = "ok"
 
 let register_all register =
+  List.iter (fun n -> register ("gw" ^ n) Gwsuite.s_gw) ["C11"; "C15"; "C16"; "C17"];
   register "histC01" (s_hist Judge.judge_c01);
   register "histC03" (s_hist Judge.judge_c03);
   register "histC07" (s_hist Judge.judge_c07);
